@@ -326,6 +326,30 @@ func runC02(x *xctx) *violation {
 		}
 		data = buf.Bytes()
 	}
+	deep := false
+	if t.Bool(K, 4) {
+		// one sample with a very deep stack and one location with very many
+		// inlined lines: nested messages of tens of KiB
+		p := &profile.Profile{SampleType: []*profile.ValueType{{Type: "samples", Unit: "count"}}, PeriodType: &profile.ValueType{Type: "cpu", Unit: "ns"}, Period: 1}
+		f := &profile.Function{ID: 1, Name: "deep", SystemName: "deep", Filename: "/src/main.go"}
+		p.Function = []*profile.Function{f}
+		m := &profile.Mapping{ID: 1, Start: 0x1000, Limit: 0x90000, File: "/bin/prog"}
+		p.Mapping = []*profile.Mapping{m}
+		l1 := &profile.Location{ID: 1, Mapping: m, Address: 0x2000, Line: []profile.Line{{Function: f, Line: 1}}}
+		l2 := &profile.Location{ID: 2, Mapping: m, Address: 0x3000}
+		for i := 0; i < 3000+t.Choose(K, 3000); i++ {
+			l2.Line = append(l2.Line, profile.Line{Function: f, Line: int64(i)})
+		}
+		p.Location = []*profile.Location{l1, l2}
+		smp := &profile.Sample{Value: []int64{1}}
+		for i, n := 0, 17000+t.Choose(K, 30000); i < n; i++ {
+			smp.Location = append(smp.Location, l1)
+		}
+		p.Sample = []*profile.Sample{smp, {Value: []int64{2}, Location: []*profile.Location{l2}}}
+		var buf bytes.Buffer
+		p.Write(&buf)
+		name, data, deep = "generated-deep.pb.gz", buf.Bytes(), true
+	}
 	payload, isGz := gunzip(data)
 	x.tr("corpus entry %s (%d bytes, gzip=%v)", name, len(data), isGz)
 	const path = "/sim/cwd/in.prof"
@@ -375,6 +399,9 @@ func runC02(x *xctx) *violation {
 	// Which family this run enumerates (one family per run keeps runs short;
 	// all families are enumerated completely for the chosen file).
 	fam := t.Choose(simrt.KFault, 6)
+	if deep {
+		fam = 5 // the seeded multi-fault family only: the enumerating families would take minutes on this entry
+	}
 	masks := []func(byte) byte{func(b byte) byte { return b ^ 0x01 }, func(b byte) byte { return b ^ 0x80 }, func(b byte) byte { return b ^ 0xFF }, func(byte) byte { return 0 }, func(byte) byte { return 0x7F }}
 	maskNames := []string{"^0x01", "^0x80", "^0xFF", "=0x00", "=0x7F"}
 	flipAll := func(kind string, src []byte, wrap func([]byte) []byte) *violation {
